@@ -134,29 +134,29 @@ def check_equatorial(ctx, name, jd0, jd1, lon, lat, lon2, lat2, klass, wide=True
     inp['polecap'] = min(asin_cap(lat, w[1]), asin_cap(w[1], lat))
     # zero interval
     v0 = prec(ctx, name, jd0, jd0, lon, lat)
-    ctx.predicate('no_exception', v0 is not None, inp, 'zero interval', klass)
+    S.predicate(ctx, PROPERTY, 'no_exception', v0 is not None, inp, 'zero interval', klass)
     if v0 is not None:
         dev = S.vsep(S.dirv(*v0), u)
         z_inp = dict(inp); z_inp['polecap'] = asin_cap(lat, lat)
         record(ctx, name + '_zero_interval', dev, z_inp)
-        ctx.predicate('zero_interval_identity', dev <= TOL, z_inp, {'out': v0, 'dev_deg': dev}, klass)
+        S.predicate(ctx, PROPERTY, 'zero_interval_identity', dev <= TOL, z_inp, {'out': v0, 'dev_deg': dev}, klass)
     v = prec(ctx, name, jd0, jd1, lon, lat)
-    ctx.predicate('no_exception', v is not None, inp, 'forward', klass)
+    S.predicate(ctx, PROPERTY, 'no_exception', v is not None, inp, 'forward', klass)
     if v is None:
         return
     inp = dict(inp); inp['polecap'] = min(inp['polecap'], asin_cap(lat, v[1]))
     if name == 'equatorial':
         dev = S.vsep(S.dirv(*v), S.matvec(M, u))
         record(ctx, 'equatorial_is_rotation', dev, inp)
-        ctx.predicate('equatorial_is_rotation', dev <= TOL, inp, {'out': v, 'oracle': w, 'dev_deg': dev}, klass)
-    ctx.predicate('declination_range', -90.0 <= v[1] <= 90.0, inp, v, klass)
+        S.predicate(ctx, PROPERTY, 'equatorial_is_rotation', dev <= TOL, inp, {'out': v, 'oracle': w, 'dev_deg': dev}, klass)
+    S.predicate(ctx, PROPERTY, 'declination_range', -90.0 <= v[1] <= 90.0, inp, v, klass)
     # there and back
     b = prec(ctx, name, jd1, jd0, v[0], v[1])
-    ctx.predicate('no_exception', b is not None, inp, {'leg': 'back', 'from': v}, klass)
+    S.predicate(ctx, PROPERTY, 'no_exception', b is not None, inp, {'leg': 'back', 'from': v}, klass)
     if b is not None and name == 'equatorial':
         dev = S.vsep(S.dirv(*b), u)
         record(ctx, 'equatorial_there_and_back', dev, inp)
-        ctx.predicate('equatorial_there_and_back', dev <= TOL, inp, {'fwd': v, 'back': b, 'dev_deg': dev}, klass)
+        S.predicate(ctx, PROPERTY, 'equatorial_there_and_back', dev <= TOL, inp, {'fwd': v, 'back': b, 'dev_deg': dev}, klass)
     # angle between two stars
     q = prec(ctx, name, jd0, jd1, lon2, lat2)
     if q is not None:
@@ -164,7 +164,7 @@ def check_equatorial(ctx, name, jd0, jd1, lon, lat, lon2, lat2, klass, wide=True
         a_inp = dict(inp); a_inp['polecap'] = min(asin_cap(lat, w[1]), asin_cap(lat2, w2[1]))
         dev = abs(S.sep_ref(lon, lat, lon2, lat2) - S.sep_ref(v[0], v[1], q[0], q[1]))
         record(ctx, name + '_preserves_angle', dev, a_inp)
-        ctx.predicate('preserves_angle', dev <= TOL, a_inp, {'dev_deg': dev}, klass)
+        S.predicate(ctx, PROPERTY, 'preserves_angle', dev <= TOL, a_inp, {'dev_deg': dev}, klass)
 
 
 def check_pm(ctx, name, jd0, jd1, lon, lat, pm, klass):
@@ -181,19 +181,19 @@ def check_pm(ctx, name, jd0, jd1, lon, lat, pm, klass):
         vs = prec(ctx, name, jd0, jd1, lon_s, lat_s)
     else:
         vs = None
-    ctx.predicate('no_exception', v is not None and v0 is not None, inp, 'proper motion', klass)
+    S.predicate(ctx, PROPERTY, 'no_exception', v is not None and v0 is not None, inp, 'proper motion', klass)
     if v is None or v0 is None:
         return
     inp = dict(inp); inp['polecap'] = min(inp['polecap'], asin_cap(lat_s, v[1], name), asin_cap(lat, v0[1], name))
     if vs is not None:
         dev = S.vsep(S.dirv(*v), S.dirv(*vs))
         record(ctx, name + '_proper_motion_shift', dev, inp)
-        ctx.predicate('proper_motion_is_start_shift', dev <= TOL, inp, {'with_pm': v, 'shifted_start': vs, 'dev_deg': dev}, klass)
+        S.predicate(ctx, PROPERTY, 'proper_motion_is_start_shift', dev <= TOL, inp, {'with_pm': v, 'shifted_start': vs, 'dev_deg': dev}, klass)
     # rigid: the displacement of the result equals the displacement of the start, mu * dt on the sphere
     d_out = S.sep_ref(v[0], v[1], v0[0], v0[1])
     d_in = S.sep_ref(lon_s, lat_s, lon, lat)
     record(ctx, name + '_proper_motion_linear', abs(d_out - d_in), inp)
-    ctx.predicate('proper_motion_linear', abs(d_out - d_in) <= TOL, inp, {'moved_out': d_out, 'moved_in': d_in}, klass)
+    S.predicate(ctx, PROPERTY, 'proper_motion_linear', abs(d_out - d_in) <= TOL, inp, {'moved_out': d_out, 'moved_in': d_in}, klass)
 
 
 def check_ecliptical(ctx, jd0, jd1, lon, lat, lon2, lat2, klass):
@@ -202,26 +202,26 @@ def check_ecliptical(ctx, jd0, jd1, lon, lat, lon2, lat2, klass):
     u = S.dirv(lon, lat)
     v0 = prec(ctx, 'ecliptical', jd0, jd0, lon, lat)
     v = prec(ctx, 'ecliptical', jd0, jd1, lon, lat)
-    ctx.predicate('no_exception', v0 is not None and v is not None, inp, 'ecliptical', klass)
+    S.predicate(ctx, PROPERTY, 'no_exception', v0 is not None and v is not None, inp, 'ecliptical', klass)
     if v0 is not None:
         dev = S.vsep(S.dirv(*v0), u)
         record(ctx, 'ecliptical_zero_interval', dev, inp)
-        ctx.predicate('zero_interval_identity', dev <= TOL, inp, {'out': v0, 'dev_deg': dev}, klass)
+        S.predicate(ctx, PROPERTY, 'zero_interval_identity', dev <= TOL, inp, {'out': v0, 'dev_deg': dev}, klass)
     if v is None:
         return
     inp = dict(inp); inp['polecap'] = min(inp['polecap'], 90.0 - abs(v[1]))
     b = prec(ctx, 'ecliptical', jd1, jd0, v[0], v[1])
-    ctx.predicate('no_exception', b is not None, inp, {'leg': 'back', 'from': v}, klass)
+    S.predicate(ctx, PROPERTY, 'no_exception', b is not None, inp, {'leg': 'back', 'from': v}, klass)
     if b is not None:
         dev = S.vsep(S.dirv(*b), u)
         record(ctx, 'ecliptical_there_and_back', dev, inp)
-        ctx.predicate('ecliptical_there_and_back', dev <= 1e-6, inp, {'fwd': v, 'back': b, 'dev_deg': dev}, klass)
+        S.predicate(ctx, PROPERTY, 'ecliptical_there_and_back', dev <= 1e-6, inp, {'fwd': v, 'back': b, 'dev_deg': dev}, klass)
     q = prec(ctx, 'ecliptical', jd0, jd1, lon2, lat2)
     if q is not None:
         a_inp = dict(inp); a_inp['polecap'] = min(inp['polecap'], 90.0 - abs(lat2), 90.0 - abs(q[1]))
         dev = abs(S.sep_ref(lon, lat, lon2, lat2) - S.sep_ref(v[0], v[1], q[0], q[1]))
         record(ctx, 'ecliptical_preserves_angle', dev, a_inp)
-        ctx.predicate('preserves_angle', dev <= TOL, a_inp, {'dev_deg': dev}, klass)
+        S.predicate(ctx, PROPERTY, 'preserves_angle', dev <= TOL, a_inp, {'dev_deg': dev}, klass)
 
 
 def obliquity(ctx, jde):
@@ -256,13 +256,13 @@ def check_route(ctx, jd0, jd1, lon, lat, klass):
     ecl1 = S.lonlat(S.matvec(S.rot_x(e1), S.dirv(*w)))
     caps += [90.0 - abs(ecl0[1]), 90.0 - abs(ecl1[1])]
     inp['polecap'] = min(caps)
-    ctx.predicate('no_exception', None not in (v, lb0, lb1, ad), inp, 'route', klass)
+    S.predicate(ctx, PROPERTY, 'no_exception', None not in (v, lb0, lb1, ad), inp, 'route', klass)
     if None in (v, lb0, lb1, ad):
         return
     dev = S.vsep(S.dirv(*v), S.dirv(*ad))
     record(ctx, 'route_equatorial_vs_ecliptical', dev, inp)
-    ctx.predicate('route_agreement', dev <= 1e-4, inp, {'equatorial': v, 'via_ecliptic': ad, 'dev_deg': dev}, klass)
-    ctx.predicate('obliquity_range', 22.0 < e0 < 25.0 and 22.0 < e1 < 25.0, inp, [e0, e1], klass)
+    S.predicate(ctx, PROPERTY, 'route_agreement', dev <= 1e-4, inp, {'equatorial': v, 'via_ecliptic': ad, 'dev_deg': dev}, klass)
+    S.predicate(ctx, PROPERTY, 'obliquity_range', 22.0 < e0 < 25.0 and 22.0 < e1 < 25.0, inp, [e0, e1], klass)
 
 
 def check_triple(ctx, jd0, jd1, jd2, lon, lat, klass):
@@ -276,13 +276,13 @@ def check_triple(ctx, jd0, jd1, jd2, lon, lat, klass):
     if None in (a, b, c, d):
         caps = [90.0 - abs(lat)] + [90.0 - abs(S.lonlat(S.matvec(fk5_matrix(jd0, j), S.dirv(lon, lat)))[1]) for j in (jd1, jd2)]
         inp['polecap'] = min(caps)
-        ctx.predicate('no_exception', False, inp, 'triple', klass)
+        S.predicate(ctx, PROPERTY, 'no_exception', False, inp, 'triple', klass)
         return
     dev = S.vsep(S.dirv(*b), S.dirv(*c))
     ctx.deviation('composition_two_steps_vs_one', dev)
-    ctx.predicate('composition_agreement', dev <= 1e-4, inp, {'two_steps': b, 'direct': c, 'dev_deg': dev}, klass)
+    S.predicate(ctx, PROPERTY, 'composition_agreement', dev <= 1e-4, inp, {'two_steps': b, 'direct': c, 'dev_deg': dev}, klass)
     dev = S.vsep(S.dirv(*d), S.dirv(lon, lat))
-    ctx.predicate('triple_round_trip', dev <= 1e-4, inp, {'dev_deg': dev}, klass)
+    S.predicate(ctx, PROPERTY, 'triple_round_trip', dev <= 1e-4, inp, {'dev_deg': dev}, klass)
 
 
 def check_newcomb(ctx, jd0, jd1, lon, lat, klass):
@@ -291,12 +291,12 @@ def check_newcomb(ctx, jd0, jd1, lon, lat, klass):
     inp['polecap'] = asin_cap(lat, w[1])
     a = prec(ctx, 'equatorial', jd0, jd1, lon, lat)
     b = prec(ctx, 'newcomb', jd0, jd1, lon, lat)
-    ctx.predicate('no_exception', a is not None and b is not None, inp, 'newcomb', klass)
+    S.predicate(ctx, PROPERTY, 'no_exception', a is not None and b is not None, inp, 'newcomb', klass)
     if a is None or b is None:
         return
     dev = S.vsep(S.dirv(*a), S.dirv(*b))
     record(ctx, 'newcomb_vs_fk5', dev, inp)
-    ctx.predicate('newcomb_within_0.005_of_fk5', dev <= 0.005, inp, {'fk5': a, 'newcomb': b, 'dev_deg': dev}, klass)
+    S.predicate(ctx, PROPERTY, 'newcomb_within_0.005_of_fk5', dev <= 0.005, inp, {'fk5': a, 'newcomb': b, 'dev_deg': dev}, klass)
 
 
 def orbit(ctx, jd0, jd1, i0, arg0, lon0):
@@ -326,20 +326,19 @@ def check_orbit(ctx, jd0, jd1, i0, arg0, lon0, klass):
         inp['inc_min'] = min(i0, 90.0 - n[1])
     a = orbit(ctx, jd0, jd1, i0, arg0, lon0)
     b = orbit(ctx, jd1, jd0, a[0], a[1], a[2]) if a else None
-    ctx.predicate('orbit_no_exception', a is not None and b is not None, inp, {'fwd': a}, klass)
+    S.predicate(ctx, PROPERTY, 'orbit_no_exception', a is not None and b is not None, inp, {'fwd': a}, klass)
     if a is None or b is None:
         return
-    inp = dict(inp); inp['inc_min'] = min(inp['inc_min'], a[0])     # the way back takes the `i0 < 1.0` branch when a[0] < 1
     dev = S.rot_angle(m0, S.euler_matrix(b[2], b[0], b[1]))
     ctx.deviation('orbit_there_and_back', dev if 1.0 <= inp['inc_min'] and inp['inc_max'] < 90.0 else 0.0)
-    ctx.predicate('orbit_there_and_back', dev <= 1e-6, inp, {'fwd': a, 'back': b, 'dev_deg': dev}, klass)
+    S.predicate(ctx, PROPERTY, 'orbit_there_and_back', dev <= 1e-6, inp, {'fwd': a, 'back': b, 'dev_deg': dev}, klass)
     m1 = S.euler_matrix(a[2], a[0], a[1])
     peri1 = S.lonlat((m1[0][0], m1[1][0], m1[2][0]))
     pole1 = S.lonlat((m1[0][2], m1[1][2], m1[2][2]))
     if p is not None and n is not None and min(90.0 - abs(peri0[1]), 90.0 - abs(pole0[1])) > 0.5:
         dev = max(S.vsep(S.dirv(*p), S.dirv(*peri1)), S.vsep(S.dirv(*n), S.dirv(*pole1)))
         ctx.deviation('orbit_vs_precession_ecliptical', dev if 1.0 <= inp['inc_min'] and inp['inc_max'] < 90.0 else 0.0)
-        ctx.predicate('orbit_precesses_like_a_direction', dev <= 1e-6, inp,
+        S.predicate(ctx, PROPERTY, 'orbit_precesses_like_a_direction', dev <= 1e-6, inp,
                       {'perihelion': peri1, 'precessed': p, 'orbit_pole': pole1, 'precessed_pole': n, 'dev_deg': dev}, klass)
 
 
@@ -351,14 +350,14 @@ def check_space(ctx, lon, lat, dist, vel, pm, time, klass):
     out0 = run_impl(lambda: vals(C.motion_in_space(Angle(lon), Angle(lat), dist, vel, Angle(pm[0]), Angle(pm[1]), 0.0)))
     tie(ctx, 'motion_in_space', [lon, lat, dist, vel, pm[0], pm[1], 0.0], out0)
     if out.startswith('E:') or out0.startswith('E:'):
-        ctx.predicate('motion_in_space_runs', abs(lat) == 90.0 or dist == 0.0, inp, [out, out0], klass)
+        S.predicate(ctx, PROPERTY, 'motion_in_space_runs', abs(lat) == 90.0 or dist == 0.0, inp, [out, out0], klass)
         return
     import core
     v = tuple(core.from_bits(int(t[1:])) for t in out.split())
     v0 = tuple(core.from_bits(int(t[1:])) for t in out0.split())
     u = S.dirv(lon, lat)
     dev = S.vsep(S.dirv(*v0), u)
-    ctx.predicate('motion_zero_time_identity', dev <= TOL, inp, {'out': v0, 'dev_deg': dev}, klass)
+    S.predicate(ctx, PROPERTY, 'motion_zero_time_identity', dev <= TOL, inp, {'out': v0, 'dev_deg': dev}, klass)
     # straight-line motion: P(t) = P(0) + t V, V = r (mu_dec north + mu_ra cos(dec) east) + (v / 977792) u  [pc / yr]
     l, p = math.radians(lon), math.radians(lat)
     north = (-math.sin(p) * math.cos(l), -math.sin(p) * math.sin(l), math.cos(p))
@@ -368,7 +367,7 @@ def check_space(ctx, lon, lat, dist, vel, pm, time, klass):
     pos = tuple(dist * u[i] + time * vel_vec[i] for i in range(3))
     dev = S.vsep(S.dirv(*v), pos)
     ctx.deviation('motion_in_space', dev)
-    ctx.predicate('motion_is_linear_in_time', dev <= TOL, inp, {'out': v, 'oracle': S.lonlat(pos), 'dev_deg': dev}, klass)
+    S.predicate(ctx, PROPERTY, 'motion_is_linear_in_time', dev <= TOL, inp, {'out': v, 'oracle': S.lonlat(pos), 'dev_deg': dev}, klass)
 
 
 def check_pm_ecl(ctx, lon, lat, eps, pm, klass):
@@ -382,7 +381,7 @@ def check_pm_ecl(ctx, lon, lat, eps, pm, klass):
     out = run_impl(lambda: C.p_motion_equa2eclip(Angle(pm[0]), Angle(pm[1]), Angle(lon), Angle(lat), Angle(lb[1]), Angle(eps)))
     tie(ctx, 'p_motion_equa2eclip', [pm[0], pm[1], lon, lat, lb[1], eps], out)
     if out.startswith('E:'):
-        ctx.predicate('pm_ecl_runs', inp['polecap'] == 0.0, inp, out, klass)
+        S.predicate(ctx, PROPERTY, 'pm_ecl_runs', inp['polecap'] == 0.0, inp, out, klass)
         return
     import core
     ml, mb = (core.from_bits(int(t[1:])) for t in out.split())
@@ -391,8 +390,28 @@ def check_pm_ecl(ctx, lon, lat, eps, pm, klass):
     tot_ec = math.hypot(ml * math.cos(math.radians(lb[1])), mb)
     rel = abs(tot_eq - tot_ec) / max(tot_eq, 1e-300)
     ctx.deviation('p_motion_total_relative', rel if inp['polecap'] > 1e-2 else 0.0)
-    ctx.predicate('total_proper_motion_invariant', rel <= 1e-9 or inp['polecap'] < 1e-2, inp,
+    S.predicate(ctx, PROPERTY, 'total_proper_motion_invariant', rel <= 1e-9 or inp['polecap'] < 1e-2, inp,
                   {'equatorial': tot_eq, 'ecliptical': tot_ec, 'rel': rel}, klass)
+
+
+def check_anchors(ctx):
+    """Meeus examples 21.b (theta Persei), 21.c (Venus, ecliptical), 22.a (obliquity), 24.b (orbit)."""
+    Angle, Epoch, C = _mods()
+    # Meeus example 21.b (theta Persei) and 21.c (Venus, ecliptical) as anchors
+    ctx.sample({'call': 'precession_equatorial(J2000, Epoch(2028, 11, 13.19), Angle(2,44,11.986,ra=True), Angle(49,13,42.48), 0.03425/3600*15, -0.0895/3600)',
+                'expected': '(41.5472125, 49.3484833)'})
+    v = prec(ctx, 'equatorial', J2000, Epoch(2028, 11, 13.19).jde(), (2 + 44 / 60.0 + 11.986 / 3600.0) * 15.0,
+             49 + 13 / 60.0 + 42.48 / 3600.0, (0.03425 * 15.0 / 3600.0, -0.0895 / 3600.0))
+    S.predicate(ctx, PROPERTY, 'anchor_meeus_21b', v is not None and abs(v[0] - (2 + 46 / 60.0 + 11.331 / 3600.0) * 15.0) < 1e-5
+                  and abs(v[1] - (49 + 20 / 60.0 + 54.54 / 3600.0)) < 1e-5, {'check': 'anchor'}, v)
+    o = orbit(ctx, 2358042.5305, 2433282.4235, 47.122, 151.4486, 45.7481)
+    S.predicate(ctx, PROPERTY, 'anchor_meeus_24b_orbit', o is not None and abs(o[0] - 47.138) < 6e-4 and abs(o[1] - 151.4782) < 6e-5
+                  and abs(o[2] - 48.6037) < 6e-5, {'check': 'anchor'}, o)
+    v = prec(ctx, 'ecliptical', J2000, Epoch(-214, 6, 30.0).jde(), 149.48194, 1.76549)
+    S.predicate(ctx, PROPERTY, 'anchor_meeus_21c', v is not None and abs(v[0] - 118.704) < 1e-3 and abs(v[1] - 1.615) < 1e-3,
+                  {'check': 'anchor'}, v)
+    e = obliquity(ctx, Epoch(1987, 4, 10.0).jde())
+    S.predicate(ctx, PROPERTY, 'anchor_meeus_22a_obliquity', abs(e - (23 + 26 / 60.0 + 27.407 / 3600.0)) < 1e-6, {'check': 'anchor'}, e)
 
 
 # ------------------------------------------------------------------ generators
@@ -431,25 +450,11 @@ def generate(ctx, shard=0, nshards=1):
     hot_lat = [v for v in hot if abs(v) <= 90.0]
 
     if shard == 0:
-        # Meeus example 21.b (theta Persei) and 21.c (Venus, ecliptical) as anchors
-        ctx.sample({'call': 'precession_equatorial(J2000, Epoch(2028, 11, 13.19), Angle(2,44,11.986,ra=True), Angle(49,13,42.48), 0.03425/3600*15, -0.0895/3600)',
-                    'expected': '(41.5472125, 49.3484833)'})
-        v = prec(ctx, 'equatorial', J2000, Epoch(2028, 11, 13.19).jde(), (2 + 44 / 60.0 + 11.986 / 3600.0) * 15.0,
-                 49 + 13 / 60.0 + 42.48 / 3600.0, (0.03425 * 15.0 / 3600.0, -0.0895 / 3600.0))
-        ctx.predicate('anchor_meeus_21b', v is not None and abs(v[0] - (2 + 46 / 60.0 + 11.331 / 3600.0) * 15.0) < 1e-5
-                      and abs(v[1] - (49 + 20 / 60.0 + 54.54 / 3600.0)) < 1e-5, {'check': 'anchor'}, v)
-        o = orbit(ctx, 2358042.5305, 2433282.4235, 47.122, 151.4486, 45.7481)
-        ctx.predicate('anchor_meeus_24b_orbit', o is not None and abs(o[0] - 47.138) < 6e-4 and abs(o[1] - 151.4782) < 6e-5
-                      and abs(o[2] - 48.6037) < 6e-5, {'check': 'anchor'}, o)
-        v = prec(ctx, 'ecliptical', J2000, Epoch(-214, 6, 30.0).jde(), 149.48194, 1.76549)
-        ctx.predicate('anchor_meeus_21c', v is not None and abs(v[0] - 118.704) < 1e-3 and abs(v[1] - 1.615) < 1e-3,
-                      {'check': 'anchor'}, v)
-        e = obliquity(ctx, Epoch(1987, 4, 10.0).jde())
-        ctx.predicate('anchor_meeus_22a_obliquity', abs(e - (23 + 26 / 60.0 + 27.407 / 3600.0)) < 1e-6, {'check': 'anchor'}, e)
+        check_anchors(ctx)
         for T in [x / 4.0 for x in range(-80, 81)]:
             obliquity(ctx, jd(T))
 
-    n = ctx.n(60000, 3000000) // nshards
+    n = ctx.n(40000, 3000000) // nshards
     for i in range(n):
         lon, lat, k = rand_dir(rng)
         if hot_lat and rng.random() < 0.25:
@@ -509,7 +514,9 @@ def replay(case):
     a = inp.get('args', [])
     kind = inp.get('check')
     sec = inp.get('second') or [10.0, 20.0]
-    if kind == 'equ':
+    if kind == 'anchor':
+        check_anchors(ctx)
+    elif kind == 'equ':
         check_equatorial(ctx, inp.get('fn', 'equatorial'), a[0], a[1], a[2], a[3], sec[0], sec[1], 'replay')
     elif kind == 'ecl':
         check_ecliptical(ctx, a[0], a[1], a[2], a[3], sec[0], sec[1], 'replay')
@@ -531,12 +538,4 @@ def replay(case):
     return (len(fails) > 0, fails)
 
 
-def known_match(finding, failure):
-    if failure.get('predicate') not in finding.get('predicates', []):
-        return False
-    inp = failure.get('input') or {}
-    for key, (lo, hi) in (finding.get('where') or {}).items():
-        v = inp.get(key)
-        if not isinstance(v, (int, float)) or not (lo <= v <= hi):
-            return False
-    return True
+known_match = S.known_match
